@@ -872,9 +872,9 @@ func TestVerifC07(t *testing.T) {
 	if vu.ReplayPath() != "" {
 		return
 	}
-	n, length := 250, 40
+	n, length := 150, 40
 	if vu.Thorough() {
-		n, length = 4000, 60
+		n, length = 3000, 50
 	}
 	n = vu.EnvInt("VERIF_C07_N", n)
 	rng := vu.Rand(7)
